@@ -392,6 +392,11 @@ func genConcTxPlan(prop string, seed uint64, thorough bool) *Plan {
 					// optimistic read-modify-write
 					add(g.pick("GET", "TYPE", "EXISTS"), g.key())
 				}
+				if g.chance(4) {
+					// the transaction runs in another database than the watched key lives
+					// in: the check of the watch and the effects of the queue are still one step
+					add("SELECT", g.pick("0", "1"))
+				}
 			}
 			if g.chance(4) {
 				add(g.concCmd(tk)...)
